@@ -194,7 +194,20 @@ def text_stream(rng, n_valid, n_malformed):
 def run_C08(rep, tier, rng):
     nv, nm = (120, 1500) if tier == "quick" else (600, 30000)
     valid, mal = text_stream(rng, nv, nm)
-    texts = corpus("C08") + valid + mal
+    scal = list(range(0, 0x3100)) + [rng.randrange(0x3100, 0x110000) for _ in range(2000)]
+    if tier == "thorough":
+        scal = list(range(0, 0x110000))
+    single = []
+    for cp in scal:
+        if 0xD800 <= cp < 0xE000:
+            continue
+        c = chr(cp)
+        single.append(c)
+        single.append("ab" + c + "$cd")
+        if cp < 0x3100:
+            single.append("#[" + c + "]" + c + ":")
+            single.append("//" + c + "\n_")
+    texts = corpus("C08") + valid + mal + single
     reqs = [kv.hexs(t) for t in texts]
     impl = [kv.canon_panic(x) for x in kv.run_impl("tokenize", reqs)]
     model = [kv.canon_panic(x) for x in kv.run_model("tokenize", reqs)]
@@ -210,7 +223,7 @@ def run_C08(rep, tier, rng):
     report_disagreements(rep, dis, "tokenize", "C08_tokenize_eq_spec")
     return {"evaluations": len(texts), "distinct_nontrivial": kv.distinct_count([t for t in texts if len(t) > 3]),
             "rule": "valid grammar files in random layouts (Unicode spaces, CR/LF, comments with multi-byte text) plus single-edit mutations, attribute bodies with nested/mismatched/unterminated brackets and raw fragments; non-trivial = longer than 3 characters; implementation compared with Spec.scan (oracle) and with the model",
-            "samples": sample(mal[40:]), "outcome_kinds": kinds, "model_disagreements": len(dis)}
+            "samples": sample(mal[40:]), "outcome_kinds": kinds, "model_disagreements": len(dis), "single_character_probes": len(single)}
 
 
 # =========================================================================================== C07
@@ -1271,7 +1284,7 @@ def run_C09(rep, tier, rng):
                 if it["kind"] != "start" and rng.random() < 0.5:
                     it["attrs"] = it.get("attrs", []) + ["#[" + rng.choice(ATTRS_BALANCED) + "]"]
         bases.append(gen.tokens_of(items))
-    vocab = ["start", "struct", "enum", "terminal", "_", ":", "::", ",", "(", ")", "{", "}", "<", ">", "Foo", "bar", "$T", "$t", "#[x]"]
+    vocab = ["start", "struct", "enum", "terminal", "_", ":", "::", ",", "(", ")", "{", "}", "<", ">", "Foo", "bar", "$T", "$t", "#[x]", "#[é]", "#[doc = \"左右\"]", "#[a(😀)]", "$Ünï".replace("Ünï", "Uni")]
     cases = []
     for toks in bases:
         cases.append(list(toks))
@@ -1297,6 +1310,10 @@ def run_C09(rep, tier, rng):
         cases.append([a])
         for b in vocab:
             cases.append([a, b])
+    # an attribute (ASCII and not) in front of every token of a valid file: mostly illegal positions
+    for toks in bases[:25]:
+        for i in range(0, len(toks), max(1, len(toks) // 6)):
+            cases.append(toks[:i] + [rng.choice(["#[é]", "#[doc = \"左右\"]", "#[a(😀)]", "#[x]"])] + toks[i:])
     texts = []
     for t in cases:
         sep = rng.choice([" ", "\n", " // é\n", "\t"])
@@ -1633,15 +1650,15 @@ def run_C16(rep, tier, rng):
 
 # =========================================================================================== registry
 
-register("C01", run_C01, ["C01.C01_no_panic_and_sound", "C01.C01_complete"])
-register("C02", run_C02, ["C02.C02_tree", "C02.C02_that_tree", "C02.C02_unique"])
+register("C01", run_C01, ["C01.C01_no_panic_and_sound", "C01.C01_complete", "C01.C01_accepts_iff", "C01.C01_sentences_terminate"])
+register("C02", run_C02, ["C02.C02_tree", "C02.C02_that_tree", "C02.C02_unique", "C02.C02_faithful"])
 register("C03", run_C03, ["C03.C03_viable"])
 register("C04", run_C04, ["C04.C04_setAction_ok_iff", "C04.C04_setAction_fresh"])
 register("C05", run_C05, ["C05.C05_fresh"])
 register("C06", run_C06, ["C06.C06_items_and_signature"])
 register("C07", run_C07, ["C07.bracketScan_no_panic", "C07.C07_handleMain_no_panic"])
 register("C08", run_C08, ["C08.C08_scan_total"])
-register("C09", run_C09, ["C09.C09_kinds", "C09.C09_nonterminals", "C09.C09_rule_numbering", "C09.C09_reduce_arms"])
+register("C09", run_C09, ["C09.C09_kinds", "C09.C09_nonterminals", "C09.C09_rule_numbering", "C09.C09_reduce_arms", "C09.C09_table_valid", "C09.C09_parse_correct"])
 register("C10", run_C10, ["C10.C10_one_start_one_terminal"])
 register("C11", run_C11, ["C11.C11_setAction_conflict"])
 register("C12", run_C12, ["C12.C12_emit"])
